@@ -193,6 +193,32 @@ def run(P, R, tier):
                                 f'the path opened for writing contains `{norm(fresh[0]) if fresh else ""}`, drawn inside the retried function: every attempt writes another file, and the file of a failed '
                                 'attempt is never removed (it is later read back as part of the dataset)', construct=f'{g.name}: attempt-independent write path')
     R.floor('C19.d', 'open-for-write sites', nw, 4)
+    # C19.g: one retried call = one rename.  A retried helper that renames several files in a loop restarts the whole loop after a late fault; in the
+    # gap-closing step the source of one rename is the target of the previous one, so the restarted loop moves an already renamed file again
+    for g in helpers.values():
+        if not g.tags.get('retry'):
+            continue
+        for lp in [l for l in walk_own(g.node) if isinstance(l, (ast.For, ast.While))]:
+            mv = [c for c in ast.walk(lp) if isinstance(c, ast.Call) and astq.fs_call(c, {'move', 'mv', 'rename', 'copy', 'cp'})]
+            if mv:
+                R.bad('C19.g', g, mv[0], f'the retried helper {g.name} renames several files in one loop: a transient fault late in the loop restarts it from the first pair, whose source name now holds '
+                      'the file that an earlier iteration moved there (sources and targets of the gap-closing renames chain), so a good part file is moved on and overwritten',
+                      construct=f'{g.name}: several renames per retried call')
+    rm_like = [g_ for g_ in helpers.values() if any(astq.fs_call(c_) in ('rm', 'rm_file', 'rmdir', 'delete') for c_ in astq.own_calls(g_))]
+    # C19.h: whether an output partition is empty is decided from what the tasks WROTE (the expected sub-part list), never from a directory listing: a stale
+    # listing taken before the sub-parts became visible would send a populated partition down the "empty: delete and skip" branch
+    for g in helpers.values():
+        for st in [x for x in walk_own(g.node) if isinstance(x, ast.If)]:
+            destructive = any(any(isinstance(c, ast.Call) and (lambda r: r and r[0] == 'func' and r[1] in rm_like)(P.resolve_call(g, c)) for b in br for c in ast.walk(b))
+                              and any(isinstance(x, ast.Return) for b in br for x in ast.walk(b)) for br in (st.body, st.orelse))
+            if not destructive:
+                continue
+            e_ = astq.expand(g, st.test)
+            listing = [c for c in ast.walk(e_) if isinstance(c, ast.Call) and (astq.fs_call(c, {'ls', 'listdir', 'find', 'glob', 'walk', 'du'})
+                                                                                 or (lambda r: r and r[0] == 'func' and astq.performs(P, r[1], lambda cc, gg: bool(astq.fs_call(cc, {'ls', 'listdir', 'find', 'glob'})), depth=2))(P.resolve_call(g, c)))]
+            R.check(not listing, 'C19.h', g, st.test, 'the "empty partition: remove and skip" branch is decided from the expected sub-part list',
+                    f'`{norm(st.test)}` decides from a directory listing that the partition is empty and removes its directories: one stale listing (taken before the sub-parts are visible) drops a '
+                    'populated partition silently', construct=f'{g.name}: emptiness from a listing')
     # C19.f: a list handed to a retried writer as `metadata_collector=` receives one entry PER ATTEMPT; whoever consumes it takes exactly one entry
     # (an index), never the whole list
     for g in helpers.values():
